@@ -206,6 +206,29 @@ func rewriteFile(rel string, src []byte) ([]byte, counts, bool, error) {
 		})
 	}
 
+	// 1b. engine.Dial takes the peer address of a new backend connection from the dialled net.Conn; the dial shim hands
+	// out a helper socket, so the address is supplied by the simulated kernel: c.RemoteAddr() -> vsys.RemoteAddr(c)
+	if rel == "core/engine.go" {
+		ast.Inspect(f, func(n ast.Node) bool {
+			ce, ok := n.(*ast.CallExpr)
+			if !ok || len(ce.Args) != 0 {
+				return true
+			}
+			se, ok := ce.Fun.(*ast.SelectorExpr)
+			if !ok || se.Sel.Name != "RemoteAddr" {
+				return true
+			}
+			if _, ok := se.X.(*ast.Ident); !ok {
+				return true
+			}
+			c["dial-remote-addr"]++
+			usesVsys = true
+			ce.Args = []ast.Expr{se.X}
+			ce.Fun = &ast.SelectorExpr{X: ast.NewIdent(vsysName), Sel: ast.NewIdent("RemoteAddr")}
+			return false
+		})
+	}
+
 	// 1. selectors
 	ast.Inspect(f, func(n ast.Node) bool {
 		se, ok := n.(*ast.SelectorExpr)
